@@ -25,11 +25,19 @@ def is_pre_violation(ref_seg, ref_out):
 
 def falsy_error_candidates(model, res, op, truth, role):
     """Outcomes that 'the error of a falsy condition of this call' may take."""
-    eff = op_eff(model, res, op)
     out = []
-    if eff is None:
-        return out
-    conds = [d for g in eff["pre"] for d in g] if role == "pre" else list(eff["post"])
+    if op["op"] == "new":
+        effs = []
+        for c in model.mro[op["cls"]]:
+            for key in (("__new__", "f"), ("__init__", "f")):
+                if key in model.members(c):
+                    effs.append(model.eff(c, key))
+    else:
+        effs = [op_eff(model, res, op)]
+    conds = []
+    for eff in effs:
+        if eff is not None:
+            conds += [d for g in eff["pre"] for d in g] if role == "pre" else list(eff["post"])
     for d in conds:
         code = (truth.get(d["cid"]) or ["T"])[0]
         if is_truthy(code):
